@@ -159,7 +159,11 @@ def make_int_model(rng, D, in_sig, out_sig, kind="module"):
     def forward(W, b, x):
         comps = []
         spatial = None
-        for (k, p), n in in_sig_t:
+        # kind "positional": the weights are attached to the POSITION of a block in the order the blocks arrive
+        # (values() order), as in a model that flattens its input blocks without looking at the keys
+        # (ModelWrapper / to_scalar_multi_image); otherwise they are attached to the key
+        arriving = [((k, p), int(blk.shape[0])) for (k, p), blk in x.items()] if kind == "positional" else in_sig_t
+        for (k, p), n in arriving:
             blk = x[(k, p)]
             spatial = blk.shape[1 : 1 + D]
             # (n, spatial, tensor) -> (n, tensor, spatial) -> (n * D^k, spatial)
@@ -182,7 +186,7 @@ def make_int_model(rng, D, in_sig, out_sig, kind="module"):
             idx += m
         return geom.MultiImage(res, D, x.is_torus)
 
-    if kind == "callable":
+    if kind in ("callable", "positional"):
 
         def model(x, aux_data=None):
             return forward(jnp.asarray(W), jnp.asarray(b), x), aux_data
@@ -212,9 +216,24 @@ class Recorder:
         self.calls = []
 
     def __call__(self, x, aux_data=None):
+        import jax
+
         out, aux = self.model(x, aux_data)
-        self.calls.append((x, out))
+        traced = any(isinstance(v, jax.core.Tracer) for mi in (x, out) for _, v in mi.items())
+        if traced:
+            # the wrapper evaluates the inner model under a JAX transform: the values are only known when the
+            # traced computation runs, so they are handed over by a callback (plain {key: array} dicts)
+            jax.debug.callback(lambda xi, oi: self.calls.append((xi, oi)), dict(x.items()), dict(out.items()))
+        else:
+            self.calls.append((x, out))
         return out, aux
+
+    def settled(self):
+        """the recorded calls, after every pending callback has run"""
+        import jax
+
+        jax.effects_barrier()
+        return list(self.calls)
 
 
 # ---------------------------------------------------------------------------------------------
@@ -520,6 +539,12 @@ EQFLIP = np.array([[1, 0], [0, -1]], dtype=np.int64)
 FLIP1 = np.array([[-1]], dtype=np.int64)
 
 
+# input layouts for which to1d emits the pseudoscalar bands before the scalar ones (no true scalar block first) ...
+UNSORTED_1D_ORDERS = [((1, 0),), ((0, 1), (1, 0)), ((1, 0), (0, 1)), ((1, 0), (0, 1), (0, 0)), ((0, 1), (0, 0))]
+# ... and two for which the 1-D key order is the sorted one
+SORTED_1D_ORDERS = [((0, 0), (1, 0)), ((0, 0), (0, 1), (1, 0))]
+
+
 def all_orders():
     """every insertion order of every non-empty subset of the three supported types (15);
     the D5 witness (vector before scalar) first"""
@@ -635,8 +660,10 @@ def climate_relayout_case(ctx: Ctx, order, nx, ny, past, future, chans, const):
                                               "vector_before_scalar": vec_before_scalar}, 2))
 
 
-def climate_call_case(ctx: Ctx, order, nx, ny, past, future, chans, const, out_order, out_ch):
-    """Climate1D.__call__ around an integer inner 1-D model: equator equivariance + correspondence"""
+def climate_call_case(ctx: Ctx, order, nx, ny, past, future, chans, const, out_order, out_ch, inner_kind=None):
+    """Climate1D.__call__ around an integer inner 1-D model: equator equivariance + correspondence.
+    inner_kind "positional": the inner model attaches its weights to the position of a block in the order the
+    blocks reach it, not to the key (it is still ONE function of the 1-D image the wrapper hands it)"""
     import ginjax.models as models
 
     rng = ctx.rng
@@ -650,14 +677,23 @@ def climate_call_case(ctx: Ctx, order, nx, ny, past, future, chans, const, out_o
     probe = climate_model(None, out_keys, past, future, (nx, ny), const)
     in_sig_1d = [(k, int(v.shape[0])) for k, v in probe.to1d(x).items()]
     out_sig_1d = list(models.Climate1D.get_1d_signature(tuple(out_keys), ny))
-    inner = make_int_model_1d(rng, in_sig_1d, out_sig_1d)
+    if inner_kind == "positional":
+        inner = make_int_model(rng, 1, in_sig_1d, out_sig_1d, kind="positional")
+    else:
+        inner = make_int_model_1d(rng, in_sig_1d, out_sig_1d)
     rec = Recorder(inner)
     m = climate_model(rec, out_keys, past, future, (nx, ny), const)
     case = {"wrapper": "Climate1D.__call__", "insertion_order": [list(k) for k in order], "lon": nx, "lat": ny,
             "past_steps": past, "future_steps": future, "constant_fields_2d": {str(k): v for k, v in const.items()},
             "output_keys": out_keys, "x": show(xd)}
+    keys_1d = [k for k, _ in in_sig_1d]
+    ctx.hist("cl_call_inner_kind", inner_kind or "keyed")
+    ctx.hist("cl_call_1d_key_order", str([list(k) for k in keys_1d]) + (" (sorted)" if keys_1d == sorted(keys_1d) else " (NOT sorted)"))
+    if inner_kind == "positional":
+        case["inner"] = ("weights attached to the position of a block in values() order of the 1-D image it receives; "
+                         f"1-D key order handed over by to1d: {keys_1d}")
     wx_mi = m(x)[0]
-    calls = list(rec.calls)
+    calls = rec.settled()
     wx2 = as_frac_dict(wx_mi, 2)
     if wx2 is None:
         raise InfraError("Climate1D output is not a half-integer: integer family broken")
@@ -712,7 +748,7 @@ def climate_call_case(ctx: Ctx, order, nx, ny, past, future, chans, const, out_o
     if not ok and eq_ok:
         ctx.violation("correspondence", "Climate1D.__call__ differs from Lean climateCall "
                       "(inner inputs to1d(x), to1d(flip.x); result (from1d(a) + flip.from1d(b)) / 2)", dict(case, **detail))
-    ctx.case(("CL-call", list(order), nx, ny, past, future, sorted(const.items()), out_keys, show(xd)),
+    ctx.case(("CL-call", inner_kind or "keyed", list(order), nx, ny, past, future, sorted(const.items()), out_keys, show(xd)),
              nontrivial=defect > 0,
              sample=pick_sample("CL-call", {"wrapper": "Climate1D.__call__", "order": [list(k) for k in order], "lon": nx,
                                             "lat": ny, "past": past, "future": future, "const": str(const),
@@ -769,6 +805,21 @@ def climate_checks(ctx: Ctx):
         out_order = out_orders[int(rng.integers(len(out_orders)))]
         out_ch = {k: 1 if quick else int(rng.integers(1, 3)) for k in out_order}
         climate_call_case(ctx, order, nx, ny, past, future, chans, const, out_order, out_ch)
+    # __call__ around inner models that depend on the ORDER of the blocks they receive, on input layouts whose 1-D image
+    # does not come out in sorted key order (no true scalar block first: to1d emits (0,1) before (0,0)) as well as on
+    # layouts where it does: both evaluations of the inner model have to be the same function of the 1-D image
+    n_pos = 2 if quick else 3
+    for r in range(n_pos):
+        for oi, order in enumerate(UNSORTED_1D_ORDERS + SORTED_1D_ORDERS):
+            j = r * 7 + oi
+            nx, ny = [(2, 3), (4, 2), (3, 3), (5, 4)][j % 4] if quick else dims[int(rng.integers(len(dims)))]
+            past, future = 1 + (j % 3), 1 + ((j // 3) % 3)
+            layouts = const_layouts(order, rng)
+            const = layouts[(r + oi) % len(layouts)]
+            chans = {k: 1 if quick else int(rng.integers(1, 3)) for k in order}
+            out_order = out_orders[int(rng.integers(len(out_orders)))]
+            out_ch = {k: 1 if quick else int(rng.integers(1, 3)) for k in out_order}
+            climate_call_case(ctx, order, nx, ny, past, future, chans, const, out_order, out_ch, inner_kind="positional")
 
 
 # ---------------------------------------------------------------------------------------------
